@@ -141,6 +141,13 @@ Proof. exact header_edit_crash_safe. Qed.
 Theorem C14_other_files_untouched : forall f a t q hdr root meta leaves tiles, q <> a -> q <> t ->
   forall s, In s (crash_states f (metadata_edit_ops a t hdr root meta leaves tiles)) -> fs_get q s = fs_get q f.
 Proof. exact edit_other_paths_untouched. Qed.
+(* an output-size limit (every L) is one of those crash points *)
+Theorem C14_limit_is_crash_point : forall L ops f, In (run_limited L f ops) (crash_states f ops).
+Proof. exact run_limited_crash_state. Qed.
+Theorem C14_limited_metadata_edit_safe : forall L f a t old hdr root meta leaves tiles, t <> a -> fs_get a f = Some old ->
+  let s := run_limited L f (metadata_edit_ops a t hdr root meta leaves tiles) in
+  fs_get a s = Some old \/ fs_get a s = Some (hdr ++ root ++ meta ++ leaves ++ tiles)%list.
+Proof. intros L f a t old hdr root meta leaves tiles Hne Hold s. eapply metadata_edit_crash_safe; [exact Hne|exact Hold|apply run_limited_crash_state]. Qed.
 (* non-vacuity: the crash states of a metadata edit include torn temporary files and the renamed result *)
 Example C14_crash_states_example :
   let f := [(1%N, [9;9;9]%N)] in
@@ -160,3 +167,5 @@ Print Assumptions C14_truncation_refuted.
 Print Assumptions C14_metadata_edit_crash_safe.
 Print Assumptions C14_header_edit_crash_safe.
 Print Assumptions C14_other_files_untouched.
+Print Assumptions C14_limit_is_crash_point.
+Print Assumptions C14_limited_metadata_edit_safe.
